@@ -51,11 +51,18 @@ pub struct Program {
   pub objs: Vec<Obj>,
   pub threads: Vec<Vec<Op>>,
   pub user_yield: bool,
+  /// also switch threads INSIDE the short critical sections announced by `Point::Held` (the lock
+  /// is held at that moment). A thread that then blocks on that lock for real makes the schedule
+  /// infeasible (the lock forces the other order): such executions are discarded, not judged.
+  #[serde(default)]
+  pub critical_sections: bool,
 }
 
 enum Cmd {
   Go,
   Probe,
+  /// stop parking at hook points: run to completion (used to wind down a discarded execution)
+  Free,
 }
 
 #[derive(Debug)]
@@ -69,6 +76,8 @@ enum Report {
 #[derive(Debug, Clone, Copy)]
 enum Kind {
   Access,
+  /// inside a critical section, holding its lock
+  Held,
   Acquire,
   OnceEnter { obj: usize },
 }
@@ -96,6 +105,9 @@ pub struct Execution {
   pub deadlock: Option<String>,
   pub replaced_cache_entry: Vec<String>,
   pub stuck: Option<String>,
+  /// the scheduled thread blocked for real on a lock that a thread parked inside a critical section
+  /// holds: this order of steps cannot happen
+  pub infeasible: Option<String>,
   pub preemptions: usize,
 }
 
@@ -178,6 +190,8 @@ struct Th {
 const STEP_TIMEOUT: Duration = Duration::from_secs(20);
 /// how long a scheduled thread may stay silent before it is considered blocked for real
 const BLOCK_TIMEOUT: Duration = Duration::from_secs(3);
+/// the same while another thread is parked inside a critical section (the expected reason)
+const CS_BLOCK_TIMEOUT: Duration = Duration::from_millis(150);
 
 pub fn run_schedule(p: &Program, prefix: &[usize]) -> Execution {
   let (objs, texts) = build_objects(p);
@@ -192,6 +206,7 @@ pub fn run_schedule(p: &Program, prefix: &[usize]) -> Execution {
     let texts = texts.clone();
     let ops = ops.clone();
     let user_yield = p.user_yield;
+    let critical_sections = p.critical_sections;
     let handle = std::thread::Builder::new()
       .name(format!("mc-sched-{ti}"))
       .spawn(move || {
@@ -200,9 +215,20 @@ pub fn run_schedule(p: &Program, prefix: &[usize]) -> Execution {
         let tx = tx_rep.clone();
         let rx_h = rx.clone();
         let tx_h = tx_rep.clone();
+        let free = Rc::new(std::cell::Cell::new(false));
+        let free_h = free.clone();
         verif::set_handler(Some(Box::new(move |pt: &Point<'_>| {
+          if free_h.get() {
+            return;
+          }
           let (site, kind, ready): (&'static str, Kind, Option<&dyn Fn() -> bool>) = match pt {
             Point::Access { site, .. } => (site, Kind::Access, None),
+            Point::Held { site, .. } => {
+              if !critical_sections {
+                return; // the critical section stays one atomic step
+              }
+              (site, Kind::Held, None)
+            }
             Point::Acquire { site, ready, .. } => (site, Kind::Acquire, Some(*ready)),
             Point::OnceEnter { site, obj, .. } => (site, Kind::OnceEnter { obj: *obj }, None),
             Point::OnceInitBegin { obj } => {
@@ -222,6 +248,10 @@ pub fn run_schedule(p: &Program, prefix: &[usize]) -> Execution {
           loop {
             match rx_h.recv() {
               Ok(Cmd::Go) => break,
+              Ok(Cmd::Free) => {
+                free_h.set(true);
+                break;
+              }
               Ok(Cmd::Probe) => {
                 let r = ready.map(|f| f()).unwrap_or(true);
                 let _ = tx_h.send(Report::ProbeResult(r));
@@ -235,6 +265,10 @@ pub fn run_schedule(p: &Program, prefix: &[usize]) -> Execution {
         loop {
           match rx.recv() {
             Ok(Cmd::Go) => break,
+            Ok(Cmd::Free) => {
+              free.set(true);
+              break;
+            }
             Ok(Cmd::Probe) => {
               let _ = tx.send(Report::ProbeResult(true));
             }
@@ -288,7 +322,7 @@ pub fn run_schedule(p: &Program, prefix: &[usize]) -> Execution {
     let mut enabled: Vec<usize> = Vec::new();
     for &t in &unfinished {
       let ok = match ths[t].at {
-        Some((_, Kind::Access)) => true,
+        Some((_, Kind::Access)) | Some((_, Kind::Held)) => true,
         Some((_, Kind::OnceEnter { obj })) => match once_in_progress.get(&obj) {
           Some(owner) => *owner == t,
           None => true,
@@ -344,7 +378,8 @@ pub fn run_schedule(p: &Program, prefix: &[usize]) -> Execution {
     let _ = ths[t].to.send(Cmd::Go);
     // run until its next point
     loop {
-      match ths[t].from.recv_timeout(BLOCK_TIMEOUT) {
+      let holder_parked = p.critical_sections && (0..ths.len()).any(|o| o != t && !ths[o].finished && matches!(ths[o].at, Some((_, Kind::Held))));
+      match ths[t].from.recv_timeout(if holder_parked { CS_BLOCK_TIMEOUT } else { BLOCK_TIMEOUT }) {
         Ok(Report::AtPoint { site, kind }) => {
           ths[t].at = Some((site, kind));
           break;
@@ -373,6 +408,57 @@ pub fn run_schedule(p: &Program, prefix: &[usize]) -> Execution {
           // can never proceed (a genuine deadlock, e.g. on a lock it holds itself). Tell them
           // apart by letting every other thread run to completion and looking again.
           let at = ex.trace.last().cloned();
+          if holder_parked {
+            // Expected in critical-section mode: the scheduled thread waits for the lock of a
+            // critical section another thread is parked in. Let every thread run freely to its end
+            // and discard the execution (the lock forbids this order of steps).
+            let deadline = std::time::Instant::now() + BLOCK_TIMEOUT;
+            let mut freed = vec![false; ths.len()];
+            // parked threads are released at once; the blocked one when it reports its next point
+            for o in 0..ths.len() {
+              if o != t && !ths[o].finished {
+                let _ = ths[o].to.send(Cmd::Free);
+                freed[o] = true;
+              }
+            }
+            while ths.iter().any(|th| !th.finished) && std::time::Instant::now() < deadline {
+              for o in 0..ths.len() {
+                if ths[o].finished {
+                  continue;
+                }
+                match ths[o].from.recv_timeout(Duration::from_millis(5)) {
+                  Ok(Report::Finished(a)) => {
+                    ex.answers[o] = a;
+                    ths[o].finished = true;
+                  }
+                  Ok(Report::AtPoint { .. }) => {
+                    if !freed[o] {
+                      let _ = ths[o].to.send(Cmd::Free);
+                      freed[o] = true;
+                    }
+                  }
+                  Ok(_) | Err(RecvTimeoutError::Timeout) => {}
+                  Err(RecvTimeoutError::Disconnected) => {
+                    ths[o].finished = true;
+                  }
+                }
+              }
+            }
+            if ths.iter().all(|th| th.finished) {
+              ex.infeasible = Some(format!("thread {t} after {at:?} waited for a lock held inside a critical section"));
+              let handles: Vec<_> = ths.iter_mut().map(|t| t.handle.take()).collect();
+              drop(ths);
+              for h in handles.into_iter().flatten() {
+                let _ = h.join();
+              }
+              return ex;
+            }
+            ex.stuck = Some(format!("thread {t} blocked after {at:?} in critical-section mode and the execution could not be wound down"));
+            for th in ths.iter_mut() {
+              th.handle.take();
+            }
+            return ex;
+          }
           let mut others_done = true;
           for o in 0..ths.len() {
             if o == t || ths[o].finished {
@@ -437,6 +523,8 @@ pub fn run_schedule(p: &Program, prefix: &[usize]) -> Execution {
 #[derive(Default)]
 pub struct Stats {
   pub schedules: u64,
+  /// executions discarded because a real lock forbids their order (critical-section mode)
+  pub infeasible: u64,
   pub by_preemptions: BTreeMap<usize, u64>,
   pub decisions: u64,
   pub distinct_traces: BTreeSet<u64>,
@@ -524,7 +612,11 @@ pub fn explore(ctx: &mut Ctx, p: &Program, bound: usize, max_schedules: u64, k: 
       Some((k, _)) => k == 0,
       None => true,
     };
-    if counted {
+    if ex.infeasible.is_some() {
+      if counted {
+        st.infeasible += 1;
+      }
+    } else if counted {
       st.schedules += 1;
       *st.by_preemptions.entry(ex.preemptions).or_insert(0) += 1;
       st.decisions += ex.decisions.len() as u64;
@@ -596,7 +688,7 @@ pub fn programs(tier: &str) -> Vec<Program> {
   let thorough = tier == "thorough";
   let r = || Obj::Build(unsorted_replace());
   let c = || Obj::Build(cached_tree());
-  let mk = |name: &str, objs: Vec<Obj>, threads: Vec<Vec<Op>>| Program { name: name.to_string(), objs, threads, user_yield: false };
+  let mk = |name: &str, objs: Vec<Obj>, threads: Vec<Vec<Op>>| Program { name: name.to_string(), objs, threads, user_yield: false, critical_sections: false };
   let script = {
     let leaves = crate::trees::script_leaves(&["a\nb"], 2, &[None, Some(crate::trees::K_A), Some(crate::trees::K_B)], true);
     leaves[11].clone()
@@ -665,6 +757,19 @@ pub fn programs(tier: &str) -> Vec<Program> {
   );
   p6b.user_yield = true;
   v.push(p6b);
+  // P7 the ReplaceSource programs again with thread switches INSIDE the critical sections of the
+  // sorted index (store in the lazy sort, read, copy in clone): a thread that needs the held lock
+  // blocks for real and the execution is discarded as infeasible; a non-blocking attempt
+  // (try_lock) would run and its consequences are judged
+  for (name, threads) in [
+    ("P7a [critical sections] replace source||clone->source", vec![vec![Op::Call(0, Source)], vec![Op::CloneCall(0, Source)]]),
+    ("P7b [critical sections] replace hash||source", vec![vec![Op::Call(0, Hash)], vec![Op::Call(0, Source)]]),
+    ("P7c [critical sections] replace clone->hash||source,source", vec![vec![Op::CloneCall(0, Hash)], vec![Op::Call(0, Source), Op::Call(0, Source)]]),
+  ] {
+    let mut q = mk(name, vec![r()], threads);
+    q.critical_sections = true;
+    v.push(q);
+  }
   v.extend(generated_programs(tier));
   if thorough {
     let mut p6c = mk(
@@ -721,6 +826,7 @@ pub fn generated_programs(tier: &str) -> Vec<Program> {
           objs: vec![Obj::Build(term.clone())],
           threads: vec![vec![calls[a].1(0)], vec![calls[b].1(0)]],
           user_yield: false,
+          critical_sections: false,
         });
         if *cached && a < 6 && b < 6 {
           v.push(Program {
@@ -728,6 +834,7 @@ pub fn generated_programs(tier: &str) -> Vec<Program> {
             objs: vec![Obj::Build(term.clone()), Obj::CloneOf(0)],
             threads: vec![vec![calls[a].1(0)], vec![calls[b].1(1)]],
             user_yield: false,
+            critical_sections: false,
           });
         }
       }
@@ -742,6 +849,7 @@ pub fn generated_programs(tier: &str) -> Vec<Program> {
               objs: vec![Obj::Build(term.clone())],
               threads: vec![vec![calls[a].1(0)], vec![calls[b].1(0)], vec![calls[c].1(0)]],
               user_yield: false,
+              critical_sections: false,
             });
           }
         }
@@ -759,6 +867,10 @@ pub fn bound_for(tier: &str, p: &Program) -> usize {
       (true, _) => 2,
       (false, _) => 2,
     };
+  }
+  if p.critical_sections {
+    // every infeasible execution costs a wait: 2 preemptions quick, 3 thorough
+    return if tier == "thorough" { 3 } else { 2 };
   }
   if tier == "thorough" {
     if p.threads.len() == 2 && ops <= 2 {
@@ -792,6 +904,10 @@ pub fn worker(tier: &str, k: usize, n: usize, ctx: &mut Ctx) {
     ctx.add("schedules", st.schedules);
     for (pre, c) in &st.by_preemptions {
       ctx.add(&key(&format!("schedules with {pre} preemptions")), *c);
+    }
+    if p.critical_sections {
+      ctx.add(&key("executions discarded as infeasible (the scheduled thread blocked on a lock held inside a critical section)"), st.infeasible);
+      ctx.add("infeasible_executions_discarded", st.infeasible);
     }
     ctx.add(&key("distinct interleavings"), st.distinct_traces.len() as u64);
     ctx.add("distinct_interleavings", st.distinct_traces.len() as u64);
